@@ -16,9 +16,11 @@ class C03(Spec):
                  "assertion: HTML equal after removing newlines between adjacent tags and one trailing newline, as a symbolic string equality; "
                  "distinct = distinct tag sequences of the reference HTML")
     assumptions = [
-        "cells range over U+0009, U+000A, U+0020-U+007E, U+00E9, U+03B1, U+1F600 (one z3 disjunction, not enumerated by the harness)",
+        "cells range over U+0009, U+000A, U+0020-U+007E, U+00E9, U+03B1, U+4E2D (one z3 disjunction, not enumerated by the harness)",
         "excluded as oracle-side deviations (triaged against the specification text): U+000B, U+000C, U+001C-U+001F, U+0085, U+00A0 and other Unicode spaces (markdown-it trims with str.strip())",
         "excluded: pymarkdown's reserved in-band characters U+0001-U+0008, U+00FE, U+8268, U+8269 (their loss is recorded once, under C02)",
+        "excluded as documented 0.29/0.31 differences: symbols such as U+1F600 next to emphasis delimiters (0.31 counts S* categories as punctuation), a closing code fence followed by a TAB (0.29 allows only spaces)",
+        "the reference is given the document with a final line ending appended when it has none (a final line ending is optional, spec 2.1); a space directly before a line ending inside text is treated as insignificant on both sides (the project's own expected output for GFM example 670 keeps it)",
         "all extensions off",
     ]
     outside = [
